@@ -279,8 +279,17 @@ def run_case(case, ctx):
     for opn, r, want in (("add", x + z, float(va) + float(vb)), ("sub", x - z, float(va) - float(vb))):
         if list(r.sisig()) != sig or fx(float(r)) != fx(want):
             ctx.viol(f"SI-same-{opn}", {**info, "got": [list(r.sisig()), fx(float(r))], "want": [sig, fx(want)]})
-    if (x < z) is not (float(va) < float(vb)) or (x >= z) is not (float(va) >= float(vb)):
-        ctx.viol("SI-same-order", info)
+    fa_, fb_ = float(va), float(vb)
+    for opn, got, want in (("lt", x < z, fa_ < fb_), ("le", x <= z, fa_ <= fb_), ("gt", x > z, fa_ > fb_), ("ge", x >= z, fa_ >= fb_),
+                           ("eq", x == z, fa_ == fb_), ("ne", x != z, fa_ != fb_), ("eq-self", x == _mk_si(sig, fa_), True),
+                           ("le-self", x <= _mk_si(sig, fa_), True), ("ne-other-signature", x != y, True) if sig != sig2 else ("eq-self", True, True)):
+        ctx.count("SI_same_signature_comparisons")
+        if got is not want:
+            ctx.viol("SI-same-order", {**info, "op": opn, "got": got, "want": want})
+    for opn, r, want in (("neg", -x, -fa_), ("abs", abs(x), abs(fa_)), ("scale", x * 2.5, fa_ * 2.5), ("scale-left", 2.5 * x, 2.5 * fa_),
+                         ("scale-div", x / 4.0, fa_ / 4.0)):
+        if list(r.sisig()) != sig or fx(float(r)) != fx(want):
+            ctx.viol(f"SI-same-{opn}", {**info, "got": [list(r.sisig()), fx(float(r))], "want": [sig, fx(want)]})
     ctx.nontrivial = any(sig) and any(sig2)
 
 
